@@ -73,6 +73,12 @@ PATTERNS = [
     (r"[^\d\w]{6}|[^a-zA-Z0-9]{6}", ["------", "______"], ["-----", "abcdef"]),
     (r"^[^\w ]{3}\Z", ["---", "!?!"], ["- -", "_--", "----"]),
     (r"[a-c]{2,}x|[^a-z]\d", ["aax", "-1", "abcx"], ["ax", "a1", ""]),
+    # inline flags and cased non-ASCII literals (outside Regex.v's fragment: decided by `re` and the direct oracles only)
+    ("(?i)stra\u00dfe", ["stra\u00dfe", "STRA\u00dfE"], ["strasse", ""]), ("stra\u00dfe", ["stra\u00dfe"], ["strasse"]),
+    ("(?i:\ufb01)x{2}", ["\ufb01xx"], ["fixx", "x"]), ("(?i)\u0130\u0149\u01f0", ["\u0130\u0149\u01f0"], ["i"]),
+    ("^[\u00df\u0130]{3}$", ["\u00df\u0130\u00df"], ["sss", ""]), ("(?i)[\u00df]{2}", ["\u00df\u00df"], ["ss"]),
+    ("(?s)a.b", ["a\nb", "axb"], ["ab"]), ("(?m)^ab$", ["ab", "x\nab\ny"], ["abc"]), ("(?x) a b # comment", ["ab"], ["a b"]),
+    ("(?a)\\w{3}\\d", ["abc1"], ["\u00e9\u00e9\u00e91"]),
 ]
 UUIDS = [uuid.UUID(int=5, version=4), uuid.UUID("886313e1-3b8a-4372-9b90-0c9aee199e5d"),
          uuid.UUID(int=2 ** 127 + 12345, version=4)]
@@ -563,6 +569,8 @@ def perturbations(r, v, depth=0, limit=40):
                 {**v, "new": 1, 77: 2, None: 3, (1, 2): 4, b"k": 5}]
         for k in list(v)[:4]:
             keep.append({**v, k: ...})         # the marker object as a member value
+        # ... and as a KEY of the value (an unusual key for the plain validator, the "more keys" marker for substitution)
+        keep += [{**v, ...: "x"}, {...: 0, **v}, {**v, ...: ...}]
         for k in list(v):
             w = dict(v)
             del w[k]
@@ -694,6 +702,21 @@ VTWINS = [
     ("schema.str.contains('\u00e9')", "'cafe\u0301'"), ("schema.str.regex('e\u0301$')", "'cafe\u0301'"),
     ("schema.list(schema.str.len(1))", "['\u00e9', 'e\u0301']"), ("schema.dict({'k': schema.str.len(2, ...)})", "{'k': 'e\u0301'}"),
     ("schema.str.len(1)", "'\ufb01'"), ("schema.str.alphabet('fi')", "'\ufb01'"), ("schema.str('\u212b')", "'\u00c5'"),
+    # an alternative of `any` that declares a literal takes every value its own type takes for that literal: close
+    # floats, NaN, equal numbers of another type are decided by the alternative's validator, not by `==`
+    ("schema.any(schema.float(1.0), schema.str('a'))", "1.0000000001"), ("schema.any(schema.float(1.0), schema.str('a'))", "1.1"),
+    ("schema.any(schema.float(float('nan')), schema.none)", "float('nan')"), ("schema.any(schema.float(1234.5).precision(2))", "1234.501"),
+    ("schema.any(schema.int(1), schema.str('a'))", "True"), ("schema.any(schema.int(1), schema.str('a'))", "1.0"),
+    ("schema.any(schema.str('a'), schema.str('b'), schema.int(3))", "'b'"), ("schema.any(schema.str('a'), schema.str('b'))", "'c'"),
+    ("schema.list(schema.any(schema.float(0.1), schema.float(0.2)))", "[0.1, 0.2, 0.1 + 0.2 - 0.1, 0.30000000000000004]"),
+    ("schema.dict({'k': schema.any(schema.float(2.5).min(2.0), schema.none)})", "{'k': 2.5000000001}"),
+    ("schema.any(schema.list([schema.float(1.0)]), schema.none)", "[1.0000000001]"),
+    # regex classes are Unicode-aware for str values (no re.ASCII): digits, letters and spaces beyond ASCII
+    ("schema.str.regex(r'^\\d+$')", "'\u0663'"), ("schema.str.regex(r'^\\w+$')", "'caf\u00e9'"), ("schema.str.regex(r'\\W')", "'\u00e9'"),
+    ("schema.str.regex(r'^\\D+$')", "'\u0663'"), ("schema.str.regex(r'^\\S+$')", "'a\u00a0b'"), ("schema.str.regex(r'\\s')", "'\u2003'"),
+    ("schema.str.regex(r'^[\\w-]+$')", "'\u00fcber-\u0663'"), ("schema.str.regex(r'\\bb')", "'\u00e9b'"),
+    ("schema.list(schema.str.regex(r'^\\d$'))", "['1', '\u0663', 'x']"), ("schema.dict({'n': schema.str.regex(r'^\\w{2}$')})", "{'n': '\u00e9\u00e8'}"),
+    ("schema.str.regex('(?i)^stra\u00dfe$')", "'STRASSE'"), ("schema.str.regex('(?i)^stra\u00dfe$')", "'STRA\u1e9eE'"), ("schema.str.regex('(?i)^k$')", "'\u212a'"),
     # many errors at once (every one is reported, rendered and counted)
     ("schema.list(schema.int)", "['x'] * 25"), ("schema.list(schema.int.min(5))", "list(range(-30, 5))"),
     ("schema.dict({%s})" % ", ".join(f"'k{i}': schema.int" for i in range(30)), "{}"),
